@@ -235,6 +235,32 @@ func InjectAt(r *rng.R, p *Program, idx int) (Injection, bool) {
 			root.Includes = append(root.Includes, f)
 			return what + ", included by the root file", true
 		}},
+		{"default-from-a-constant-of-a-package-used-for-nothing-else", "A", func() (string, bool) {
+			// the root takes a field default from a constant of struct type that lives in one included
+			// file while its type lives in another: the value is written out in place, so the
+			// constant's package is named nowhere in the generated code (an import of it would be
+			// unused — with --no-embed-idl nothing else imports the includes)
+			root := p.Files[len(p.Files)-1]
+			for _, h := range p.Files {
+				if h.Base() == "origin_types" || h.Base() == "origin_values" {
+					return "", false
+				}
+			}
+			dir := path.Dir(root.Path)
+			tf := &File{Path: path.Join(dir, "origin_types.thrift")}
+			xf := &Field{ID: 1, Name: "x", Req: Optional, Type: &Type{K: I32}}
+			pt := &Def{File: tf, Name: "OriginPoint", Kind: Struct, Index: 1 << 21, Fields: []*Field{xf, {ID: 2, Name: "tag", Req: Optional, Type: &Type{K: String}}}}
+			tf.Defs = append(tf.Defs, pt)
+			cf := &File{Path: path.Join(dir, "origin_values.thrift"), Includes: []*File{tf}}
+			cst := &Constant{File: cf, Name: "ORIGIN_POINT", Type: &Type{K: Named, Ref: pt},
+				Value: &Lit{K: LMap, Items: []*Lit{{K: LString, S: "x", Field: xf}, {K: LInt, I: 7}}}}
+			cf.Consts = append(cf.Consts, cst)
+			root.Includes = append(root.Includes, tf, cf)
+			root.Defs = append(root.Defs, &Def{File: root, Name: "UsesOriginPoint", Kind: Struct, Index: 1<<21 + 1, Fields: []*Field{
+				{ID: 1, Name: "where", Req: Optional, Type: &Type{K: Named, Ref: pt}, Default: &Lit{K: LConstRef, Const: cst}}}})
+			p.Files = append(p.Files[:len(p.Files)-1], tf, cf, root)
+			return "a field default taken from a struct constant of an included file that is used for nothing else", true
+		}},
 		{"label-equal-to-the-name-of-a-later-item", "B", func() (string, bool) {
 			// two items of one enum with the same text (the label of one, the name of the other),
 			// labelled item first: the check must not depend on the order
